@@ -60,14 +60,14 @@ def events_prefix(a, b):
 
 class C12(Prop):
     pid = "C12"
-    quick = {"seeds": 40, "wall_cap": 60, "chunk": 1}
+    quick = {"seeds": 100, "wall_cap": 200, "chunk": 1}
     thorough = {"seeds": 1800, "wall_cap": 1500, "chunk": 2}
     level = "fault_enumeration"
     rule = ("per seed one short base history [integrate(t_mid)?, integrate(), reset, integrate()] (3-15 recorded steps; every method family incl. implicit "
             "with FD and user Jacobian, splitting, Richardson; both directions; dense on/off; events incl. terminal; callbacks).  The fault-free twin is "
             "run once and the number of rhs / Jacobian / event / callback calls per op is read off; then EVERY crash point is enumerated: one derived "
             "case per (seam, k) with the k-th call of that seam raising (Boom and KeyboardInterrupt alternate), capped at 120 per base by seeded "
-            "sub-sampling; 6 (quick) / 24 (thorough) two- and three-fault sequences per base (fault, resume, fault, resume) and up to 6 tolerance-failure cases (persistent rhs spikes + retry cap).  Each derived case runs the faulted "
+            "sub-sampling that always keeps (up to 60) crash points on step boundaries (last call before, first/last call inside, first call after a step); 6 (quick) / 24 (thorough) two- and three-fault sequences per base (fault, resume, fault, resume) and up to 6 tolerance-failure cases (persistent rhs spikes + retry cap).  Each derived case runs the faulted "
             "world and compares it with the twin.  Non-trivial = the fault fired and at least one step was recorded in the whole history; distinct = "
             "distinct canonical scenario JSON; crash phases are classified from the trace and counted")
     assumptions = ["a fault in an event function may leave the current step recorded or not (both accepted); every other phase must leave exactly the completed steps",
@@ -91,8 +91,21 @@ class C12(Prop):
             for seam in ("rhs", "jac", "event", "callback"):
                 for k in range(1, snap["counts"].get(seam, 0) + 1):
                     points.append((i, seam, k))
-        if len(points) > self.CAP:
-            keep = set(r.sample(range(len(points)), self.CAP))
+        # deterministic cost cap: a base history with very many peer calls or steps (tight tolerances on a low-order pair) gets fewer crash points
+        cap_here = max(16, min(self.CAP, 1500000 // max(1, w.seq), 12000 // max(1, w.top_icalls_done)))
+        if len(points) > cap_here:
+            # crash points on the boundary of a step (last call before / first and last call inside / first call after the integrator
+            # returns, i.e. while the step is being committed) are always kept; the rest is sub-sampled
+            bset = set()
+            for c in w.icalls:
+                if c["depth"] == 0 and c.get("rhs_k1") is not None:
+                    for k in (c["rhs_k0"], c["rhs_k0"] + 1, c["rhs_k1"], c["rhs_k1"] + 1):
+                        bset.add((c["op"], "rhs", k))
+            boundary = [j for j, p in enumerate(points) if p in bset]
+            if len(boundary) > cap_here // 2:
+                boundary = r.sample(boundary, cap_here // 2)
+            rest = [j for j in range(len(points)) if j not in set(boundary)]
+            keep = set(boundary) | set(r.sample(rest, cap_here - len(boundary)))
             points = [p for j, p in enumerate(points) if j in keep]
         for j, (i, seam, k) in enumerate(points):
             c = copy.deepcopy(base)
@@ -248,6 +261,10 @@ class C12(Prop):
                 small_cap = scn.get("knobs", {}).get("retry_cap") is not None and any(type(x).__name__ == "FailedToMeetTolerances" for x in cause_chain(snap["exc"]))
                 if small_cap:
                     continue        # with the retry-cap knob a resumed step may legitimately exhaust its (2-3) retries
+                spiked_state = any(fr["fault"]["kind"] == "spike" for fr in w.fired) and \
+                    float(np.max(np.abs(np.asarray(w.snaps[i - 1]["y"][-1], dtype=np.float64)))) > 1e3 * (1.0 + float(np.max(np.abs(np.asarray(w.snaps[0]["y"][0], dtype=np.float64)))))
+                if spiked_state:
+                    continue        # an accepted step computed from spiked slopes left a state of 1e5..1e6: the problem, not the library, fails from there
                 if tsnap is None or tsnap["exc"] is None or diverged:
                     bad("resume_completes", "op %d raised %s without an injected fault (%s)" % (i, snap["exc_type"], str(snap["exc"].__cause__)[:120]), i)
                 continue
